@@ -30,6 +30,7 @@ FUNCS = {
     "genfn": (NW.genfn, ["genfn"]),
     "reassigned": (NW.reassigned, ["reassigned"]), "counter": (NW.counter, ["make_counter", "counter"]), "matcher": (NW.matcher, ["matcher"]),
     "total": (NW.total, ["total"]), "report": (NW.report, ["report"]), "annotated": (NW.annotated, ["annotated"]),
+    "nested_comp": (NW.nested_comp, ["nested_comp"]), "scale": (NW.scale, ["make_scaled", "scale"]),
 }
 
 
